@@ -21,6 +21,7 @@ RULE = (
     "Non-trivial = the case contains a node with depth >= 1 that has a sibling or a descendant (shape cases), or a history "
     "with >= 3 successful link changes. Enumerated cases distinct by construction; generated ones hashed."
     ' Also: sparse reads between calls; every parent assignment on forests N <= 4 with an evicting hook, attributes checked right afterwards.'
+    ' Rounds 11-14: ViewMix/CachedKids/StrictEq classes, deep bushy trees (value or RecursionError), wide nodes changed without reads, trees pickled and changed across processes.'
 )
 ASSUMPTIONS = [
     "the definitions are recomputed using only .parent and .children, compared by identity",
